@@ -78,6 +78,12 @@ type Node struct {
 	ConfHist    []confAt          // ConfState after applying a conf change (or snapshot) at Index
 	InitConf    *pb.ConfState
 
+	// Writes of Readys with MustSync=false sit in the OS cache until the next synced write: SyncedHS is the
+	// HardState as of the last sync while such writes are outstanding (nil = everything is synced),
+	// SyncedLast the storage's last index at the last sync. A crash may lose them.
+	SyncedHS   *pb.HardState
+	SyncedLast uint64
+
 	// per-incarnation apply cursor (C08)
 	NextApply uint64
 
@@ -367,6 +373,15 @@ func (n *Node) StCompact(i uint64) error {
 		return "ok"
 	})
 	return err
+}
+
+// DurableHS is the HardState a crash is guaranteed to preserve.
+func (n *Node) DurableHS() *pb.HardState {
+	if n.SyncedHS != nil {
+		return n.SyncedHS
+	}
+	hs, _, _ := n.St.InitialState()
+	return hs
 }
 
 // Crash drops all volatile state; the storage survives.
